@@ -119,7 +119,9 @@ func runNetSuite(seed uint64, n int, out *Out, stats *Stats) {
 					if creator.resolve[key] == "" {
 						creator.resolve[key] = net.JoinHostPort(sp[0], sp[1])
 						if strings.Contains(sp[0], "example.org") {
-							creator.resolve[key] = net.JoinHostPort("10.0.0.77", sp[1])
+							// every name comes back at an address of its own (two names of one machine
+							// are the aliasing cases, generated separately)
+							creator.resolve[key] = net.JoinHostPort(map[string]string{"seed.example.org": "10.0.0.71", "alias.example.org": "10.0.0.72", "self.example.org": "10.0.0.73"}[sp[0]], sp[1])
 						}
 						ops = append(ops, sx("setres", atom(sp[0]), atom(sp[1]), atom(creator.resolve[key])))
 					} else {
